@@ -170,6 +170,21 @@ fn explore(ctx: &Ctx) -> Outcome {
             total.violate(format!("after-failed-calls:{}", sig), summary, json!({"case": c, "after_failed_calls": true}));
         }
     }
+    // ... and each SINGLE call of the series immediately before a representative case (state that
+    // the very next decode consumes — a pending lead byte in a shared decoder — shows only then)
+    {
+        let reps: Vec<&Vec<(usize, usize)>> = cases.iter().filter(|c| c.len() == 2 && ((c[0].0 == 2 && c[1].0 == 1) || (c[0].0 == 1 && c[1].0 == 3) || (c[0].0 == 4 && c[1].0 == 2)) && c[0].1 == 1 && c[1].1 == 4).collect();
+        for i in 0..props::poison::count() {
+            for c in &reps {
+                props::poison::single_call(i);
+                total.cases += 1;
+                if let Some((sig, summary)) = judge_files(&files_of(c), &mut total, false) {
+                    total.violate(format!("after-single-call:{}", sig), format!("right after call #{} of the odd-call series: {}", i, summary), json!({"case": c, "after_single_call": i}));
+                }
+            }
+        }
+        layers.push(json!({"family": "each single call of the odd-call series immediately before a representative case", "calls": props::poison::count(), "representatives": reps.len(), "completed": true}));
+    }
     // scale: bodies and names beyond 8- and 16-bit sizes
     for (tag, files) in scale_sets() {
         total.cases += 1;
@@ -220,6 +235,10 @@ fn replay(_ctx: &Ctx, case: &Value) -> Vec<Violation> {
         judge_files(&files, &mut t, false)
     } else {
         let c: Vec<(usize, usize)> = serde_json::from_value(case["case"].clone()).unwrap_or_default();
+        if let Some(i) = case["after_single_call"].as_u64() {
+            props::poison::single_call(i as usize);
+            return judge_files(&files_of(&c), &mut t, false).map(|(sig, summary)| vec![Violation { sig: format!("after-single-call:{}", sig), summary, case: case.clone() }]).unwrap_or_default();
+        }
         if case["after_failed_calls"].as_bool().unwrap_or(false) {
             props::poison::failing_calls();
             return judge_files(&files_of(&c), &mut t, true).map(|(sig, summary)| vec![Violation { sig: format!("after-failed-calls:{}", sig), summary, case: case.clone() }]).unwrap_or_default();
